@@ -72,7 +72,7 @@ def cases(draw, tier):
                        "min_segment_length": msl, "max_interval_length": mil,
                        "growth_factor": growth},
             "X": X, "scale2": draw(st.floats(1.0, 3.0)),
-            "n_train": None if long_series else draw(st.sampled_from([None, None, "shorter", "longer"]))}
+            "n_train": None if long_series else draw(st.sampled_from([None, None, "shorter", "longer", "same_buffer"]))}
 
 
 def inner_intervals(s, e, msl):
@@ -104,9 +104,15 @@ def check(case):
     msl, mil = params["min_segment_length"], params["max_interval_length"]
     from checks.c07 import training_data
     Xtrain = training_data(X, case.get("n_train") if n <= 16 else (None if case.get("n_train") == "longer" else case.get("n_train")), 2 * msl, params["anomaly_score"])
+    Xpred = X
+    if case.get("n_train") == "same_buffer":
+        Xtrain = Xtrain.copy()
+        Xpred = Xtrain
     with sut("CircularBinarySegmentation.fit/predict"):
         det = K.build(K.detector_spec("CircularBinarySegmentation", params)).fit(Xtrain)
-        y = det.predict(X)
+        if Xpred is Xtrain:
+            Xtrain[:] = X
+        y = det.predict(Xpred)
         table = det.scores
         thr = float(det.threshold_)
     kind, events = K.sparse_events(y)
